@@ -1,8 +1,10 @@
 """C20  Record equality is a TTL/case-insensitive equivalence; Dedup keeps one each.
 
+(Dedup's group key is defined on the owner's label OCTETS lower-cased -- Names!Parse of the owner text -- not on its characters.)
 MC      MC_Dup, Dup.tla on itself: pairs over 144 abstract records [t,c,o,ttl,n,v] (IsDup symmetric, ignores TTL and the
         case of owner/embedded names, separates everything else, lower-cases names only), triples over 36 (transitive),
-        all lists of <= 5 of the six Dedup symbols (one per group, original order, first of its group, minimum TTL,
+        all lists of <= 5 of the six Dedup symbols x 7 owner shapes (escaped backslash / dot / \\DDD / quote next to the letter
+        whose case changes, several backslashes in a row) (one per group, original order, first of its group, minimum TTL,
         idempotent, never merges non-duplicates).
 GEN     Gen_Dup exports every ordered pair (verdict of Dup.tla), every triple of the reduced universe, every list of <= N
         symbols with the surviving indexes and TTLs  ->  harness `dup replay`: the abstract records are instantiated for
@@ -10,12 +12,17 @@ GEN     Gen_Dup exports every ordered pair (verdict of Dup.tla), every triple of
         over each field tagged domain-name/cdomain-name, v over every other scalar cell (each element of every slice,
         option, SVCB parameter, APL prefix); an instantiation is used only if the variants pack to octets that differ
         exactly where the abstract records do.  dns.IsDuplicate (both orders, Copy, separately built equal record) and
-        dns.Dedup(list, nil) (identity, order, TTLs) are compared with the vector.
+        dns.Dedup(list, nil) (identity, order, TTLs) are compared with the vector.  Mode "octets": for every octet value c the
+        names x<c>y / x<c XOR 0x20>y as owner and in every embedded name field (duplicates only for letters).  Where reversing
+        a record's lists does not change its packed octets (SVCB/HTTPS parameters) the pairs/triples are also run with the
+        first, the second and both arguments in reversed order (another spelling of the same record: same verdicts, incl. Copy).
 TV      harness `dup record`: random pairs of records obtained from the wire (Unpack of the real Pack, one RDATA octet
         outside the names overwritten in a quarter of them) described by their uncompressed owner/RDATA octets and the
         spans of their embedded names, with IsDuplicate in both orders; random lists with TTLs up to 2^32-1 and the real
         Dedup result; `dup sweep`: every RDATA octet of every type overwritten with 0 / 0xff / bit 0 flipped, each decoded
         variant against a second decoding of the same octets and against the original  ->  Trace_Dup.
+
+Seeded changes /verif/seeded/C20-{1,2,3}: see the report at the end of this docstring.
 
 Mutants (checks/mutants/C20), all exit 1 (stage = where the evidence shows the discrepancy):
   mx-preference-omitted.diff     one field dropped from a generated isDuplicate   GEN isduplicate/false-positive:mx:value:preference ; TV (pairs, sweep one-octet)
@@ -44,7 +51,7 @@ def gen(ctx, binp, nlist, nshards):
         if not os.path.exists(p):
             raise vp.Infra("Gen_Dup %s exported nothing" % mode)
         paths.append(p)
-    vp.parallel([lambda: g("pairs", 0), lambda: g("triples", 0), lambda: g("lists", nlist)], maxpar=3)
+    vp.parallel([lambda: g("pairs", 0), lambda: g("triples", 0), lambda: g("lists", nlist), lambda: g("octets", 0)], maxpar=4)
     allp = os.path.join(ctx.out, "vectors-all.ndjson")
     n = 0
     with open(allp, "w") as f:
